@@ -1,14 +1,52 @@
 (** C35 — the data recorder persists every entry exactly once.  Theorems only. *)
-From Akita Require Import Lib.Base Lib.Lts C35.Model.
+From Akita Require Import Lib.Base Lib.Lts C35.Model C35.Proofs.
 Local Open Scope N_scope.
 
-(** InsertData ∥ Flush as coded before the fix (Flush not under the mutex): two
-    goroutines, batchSize 1.  Witness 1: the second BEGIN/COMMIT pair fails
+(** Sequential sessions.  For every set of tables (any shapes), every batch size,
+    every sequence of InsertData / Flush calls with ANY map iteration order in each
+    flush (an oracle per flush that visits every table), followed by Close: if no
+    call panicked, then for every table the rows in the database — location ids
+    resolved through the location table, as the datareader does — are exactly the
+    inserted entries of that table, in insertion order, each once, with every
+    non-ignored field unchanged; nothing is left in a buffer. *)
+Theorem c35_seq_exactly_once : forall shapes batch ops ord s,
+  Forall (covers (map fst shapes)) ops -> (forall n, In n (map fst shapes) -> In n ord) ->
+  run_ops (ops ++ [OFlush ord]) (rec_init shapes batch) = Some s ->
+  (forall n t, tab_get n (r_tabs s) = Some t ->
+     t_buf t = [] /\ map (resolve (r_locrows s)) (t_rows t) = map proj (inserted n ops)) /\
+  map fst (r_tabs s) = map fst shapes /\
+  r_locbuf s = [] /\ r_locrows s = number_from 1 (r_locs s) /\ NoDup (r_locs s).
+Proof. exact seq_exactly_once. Qed.
+Print Assumptions c35_seq_exactly_once.
+
+(** The location table: ids are exactly 1..n in row order, the strings are pairwise
+    distinct, and every id stored in any row is a key of the table. *)
+Theorem c35_location_bijection : forall shapes batch ops ord s,
+  Forall (covers (map fst shapes)) ops -> (forall n, In n (map fst shapes) -> In n ord) ->
+  run_ops (ops ++ [OFlush ord]) (rec_init shapes batch) = Some s ->
+  map fst (r_locrows s) = map (fun i => 1 + N.of_nat i) (seq 0 (length (r_locrows s))) /\
+  NoDup (map snd (r_locrows s)) /\
+  (forall n t r id, tab_get n (r_tabs s) = Some t -> In r (t_rows t) -> In (CLoc id) r ->
+     In (id, loc_lookup id (r_locrows s)) (r_locrows s)).
+Proof. exact location_bijection. Qed.
+Print Assumptions c35_location_bijection.
+
+(** The two value-domain defects: a storable-looking entry of allowed kinds makes
+    the flush panic (model outcome None). *)
+Theorem c35_value_domain_refuted :
+  run_ops [OInsert 0 [(TPlain, VUint 9223372036854775808)] [0]; OFlush [0]] (rec_init [(0, [TPlain])] 10) = None /\
+  run_ops [OInsert 0 [(TPlain, VComplex)] [0]; OFlush [0]] (rec_init [(0, [TPlain])] 10) = None /\
+  run_ops [OInsert 0 [(TPlain, VUint 9223372036854775807)] [0]; OFlush [0]] (rec_init [(0, [TPlain])] 10) <> None.
+Proof. vm_compute. repeat split; congruence. Qed.
+Print Assumptions c35_value_domain_refuted.
+
+(** InsertData ∥ Flush as coded BEFORE fix 1220fc1b (Flush not under the mutex): two
+    goroutines, batchSize 1.  Witness 1: a second BEGIN inside the open transaction
     (mustExecute panics).  Witness 2: an entry appended while another goroutine is
     between "range table.entries" and "table.entries = nil" is lost, silently. *)
 Definition c_init2 : cst := mk_c [ILock; ILock] false [] [] 0 false false.
 
-Theorem c35_concurrent_refuted :
+Theorem c35_concurrent_old_refuted :
   (exists o, c_panic (run c_step_old o c_init2) = true) /\
   (exists o, let s := run c_step_old o c_init2 in
              c_panic s = false /\ c_pcs s = [IDone; IDone] /\ c_rows s = [0] /\ c_buf s = []).
@@ -17,4 +55,47 @@ Proof.
   - exists [0; 0; 0; 0; 1; 1; 1; 1]%nat. vm_compute. reflexivity.
   - exists [0; 0; 0; 0; 0; 1; 1; 0; 0; 0; 0; 0; 1]%nat. vm_compute. repeat split; reflexivity.
 Qed.
-Print Assumptions c35_concurrent_refuted.
+Print Assumptions c35_concurrent_old_refuted.
+
+(** AFTER the fix (InsertData and the flush it triggers run under t.mu): three
+    inserting goroutines, every batch size 1..4, EVERY schedule of length 6 over the
+    three goroutines (exhaustive, finite domain — each goroutine has two steps and a
+    disabled choice stutters): every entry of a finished goroutine is in rows ++
+    buffer exactly once and complete schedules lose nothing. *)
+Definition f_init3 (batch : N) : fst_ := mk_f [JLock; JLock; JLock] false [] [] 0 batch.
+
+Fixpoint all_oracles (n : nat) : list (list nat) :=
+  match n with
+  | O => [[]]
+  | S k => flat_map (fun o => [0%nat :: o; 1%nat :: o; 2%nat :: o]) (all_oracles k)
+  end.
+
+Definition count_in (x : N) (l : list N) : nat := length (filter (N.eqb x) l).
+
+Definition fixed_ok (s : fst_) : bool :=
+  forallb (fun i => match nth_error (f_pcs s) i with
+                    | Some JDone => Nat.eqb (count_in (N.of_nat i) (f_rows s ++ f_buf s)) 1
+                    | _ => Nat.eqb (count_in (N.of_nat i) (f_rows s ++ f_buf s)) 0
+                    end) [0; 1; 2]%nat.
+
+Theorem c35_concurrent_fixed_3 :
+  forallb (fun b => forallb (fun o => fixed_ok (run c_step_fixed o (f_init3 b))) (all_oracles 6)) [1; 2; 3; 4] = true.
+Proof. vm_compute. reflexivity. Qed.
+Print Assumptions c35_concurrent_fixed_3.
+
+(** Non-vacuity: two tables sharing location strings, batch size 2, flush orders
+    alternating between the two map iteration orders. *)
+Example c35_nonvacuous :
+  let shapes := [(0, [TPlain; TLoc; TIgnore]); (1, [TLoc; TPlain; TLoc])] in
+  let ops := [OInsert 0 [(TPlain, VInt 1); (TLoc, VStr [65]); (TIgnore, VInt 9)] [1; 0];
+              OInsert 1 [(TLoc, VStr [66]); (TPlain, VStr [39; 34]); (TLoc, VStr [65])] [1; 0];
+              OFlush [1; 0];
+              OInsert 0 [(TPlain, VInt 2); (TLoc, VStr [66]); (TIgnore, VInt 8)] [1; 0]] in
+  Forall (covers (map fst shapes)) ops /\
+  exists s, run_ops (ops ++ [OFlush [0; 1]]) (rec_init shapes 2) = Some s /\
+            r_locrows s = [(1, [66]); (2, [65])].
+Proof.
+  split.
+  - repeat (constructor; [cbn; intros n [H|[H|[]]]; subst; auto|]). constructor.
+  - eexists. split; vm_compute; reflexivity.
+Qed.
